@@ -12,6 +12,9 @@
      polls the engine sleeps), and whether the program is still running;
    * the program's exit code and what the files contain once it has exited.
 
+   [fx] selects the stop rule of EngineBase.add_to_path: true = the rule as it is now
+   (`if path.length == path.maxlen and not success`), false = the rule before the repair of
+   lead L11 (= EngineM.add_to_path: a crossing frame that is also the maxlen-th is a failure).
    [fixL2] / [fixL3] select the repaired (true) or the original (false) code for the two
    recorded leads: L2 = lammps.py pairs a frame with `box_trajectory.pop()` (the LAST box
    read in this poll) instead of `pop(0)`; L3 = gromacs.py negates the velocities for
@@ -48,7 +51,45 @@ Inductive poll_result :=
 | IdxError                         (* IndexError (maxlen = 0 / pop from an empty list) *)
 | Hang (p : path).                 (* waits forever for data that never arrives *)
 
+(* EngineBase.add_to_path(path, phase_point, left, right) -> (success, stop, add), see the
+   header for [fx].  [None] = IndexError of phasepoints[-1] on an empty path (maxlen = 0). *)
+Definition add_to_path_x (fx : bool) (p : path) (f : frame) (left right : Z)
+  : option (path * bool * bool * bool) :=
+  let '(p1, add) := append p f in
+  let success := false in
+  let stop := negb add in
+  match rev (pts p1) with
+  | [] => None
+  | lastf :: _ =>
+      let '(success, stop) :=
+        if ford lastf <? left then (true, true)
+        else if right <? ford lastf then (true, true)
+        else (success, stop) in
+      let '(success, stop) :=
+        if (plen p1 =? maxlen p1)%nat && (if fx then negb success else true)
+        then (false, true) else (success, stop) in
+      Some (p1, success, stop, add)
+  end.
+
+(* the loop every _propagate_from runs around add_to_path (EngineM.propagate_loop for [fx]) *)
+Fixpoint propagate_loop_x (fx : bool) (p : path) (stream : list frame) (left right : Z) (n : nat)
+  : prop_result :=
+  match stream with
+  | [] => PRExhausted p
+  | f :: r =>
+      match add_to_path_x fx p f left right with
+      | None => PRError
+      | Some (p1, success, stop, _) =>
+          if stop then PR p1 success (S n) else propagate_loop_x fx p1 r left right (S n)
+      end
+  end.
+
+(* EngineBase.propagate seen from outside: the initial phase point is added first *)
+Definition propagate_x (fx : bool) (p : path) (init : frame) (stream : list frame) (left right : Z)
+  : prop_result := propagate_loop_x fx p (init :: stream) left right 0.
+
 Section Poll.
+Variable fx : bool.
 Variable ord : Z -> Z -> Z -> Z.
 Variables left right : Z.
 Variable rv : bool.        (* `reverse` of propagate() = system.vel_rev in _propagate_from *)
@@ -98,7 +139,7 @@ Fixpoint lmp_for (n : nat) (tr : list conf) (bx : list Z) (p : path) (step : nat
       match tr, pop_box bx with
       | f :: tr', Some (b, bx') =>
           let o := calc_order rv (cpos f) (cvel f) b in
-          match add_to_path p (snapshot o step) left right with
+          match add_to_path_x fx p (snapshot o step) left right with
           | None => FErr
           | Some (p1, success, stop, _) =>
               if stop then FStop p1 success else lmp_for n' tr' bx' p1 (S step)
@@ -153,7 +194,7 @@ Fixpoint cp2k_for (n : nat) (ps vs : list Z) (p : path) (step : nat) : for2_out 
       match ps, vs with
       | x :: ps', v :: vs' =>
           let o := calc_order rv x v box0 in
-          match add_to_path p (snapshot o step) left right with
+          match add_to_path_x fx p (snapshot o step) left right with
           | None => F2Err
           | Some (p1, success, stop, _) =>
               if stop then F2Stop p1 success else cp2k_for n' ps' vs' p1 (S step)
@@ -206,7 +247,7 @@ Definition gmx_order (c : conf) : Z :=
 
 (* body of `for i, data in enumerate(gro.get_gromacs_frames())` *)
 Definition gmx_consume (p : path) (i : nat) (c : conf) : option (path * bool * bool) :=
-  match add_to_path p (snapshot (gmx_order c) i) left right with
+  match add_to_path_x fx p (snapshot (gmx_order c) i) left right with
   | None => None
   | Some (p1, success, stop, _) => Some (p1, success, stop)
   end.
@@ -308,7 +349,7 @@ Fixpoint inproc_loop (fine : list conf) (i : nat) (p : path) (step : nat) : poll
   | c :: r =>
       if (i mod s =? 0)%nat then
         let o := calc_order rv (cpos c) (cvel c) (cbox c) in
-        match add_to_path p (snapshot o step) left right with
+        match add_to_path_x fx p (snapshot o step) left right with
         | None => IdxError
         | Some (p1, success, stop, _) =>
             if stop then Ret p1 success PNone else inproc_loop r (S i) p1 (S step)
